@@ -170,3 +170,23 @@ def declare(reg, eng):
     reg.contracts["ConfigInformation.identifiers"]["locals"] = {"raw_identifier": "opt:Identifier", "full_identifier": "opt:Identifier"}
     reg.contracts["Hasher.update"]["effect"] = "Hasher.update"
     reg.contracts["HashComputer.compute"]["effect"] = "hash.compute"
+
+
+    # ------------------------------------------------------------ clone (C02): the copy installed for an unset parameter keeps every value
+    # that is not generated or constant - Meta / Option / Path values included - so that it stays == to the declared default
+    eng.load("clone", "core/objects.py")
+    clonev = z3.Function("clone_of", Val, Val)          # names the result of the recursive call (ML2)
+    reg.specfuns["clone_of"] = lambda e, st, a: V(clonev(a[0].t), None)
+    reg.contract("new_like", params=["obj", "kwargs"], types={"kwargs": "dict"}, fresh="Config", returns="Config", modifies=[], effect="new_like")
+    KEEP = "isnone(argument.generator) and not argument.constant"
+    reg.contract("clone", params=["v"], modifies=[], no_replay=True,
+                 ensures=[("ASSUME", "result == clone_of(v)"),
+                          ("C02", "implies(isnone(v) or isstr(v) or isint(v) or isbool(v) or isfloat(v) or ispath(v), result is v)"),
+                          ("C02", "implies(isclass(v, list), isclass(result, list) and length(result) == length(v))"),
+                          ("C02", "implies(isclass(v, Config), effect('new_like') and effect_arg('new_like', 0) is v and reached_loop('(argument, value)'))")],
+                 raises={"NotImplementedError": {"when": []}, "Exception": {"when": []}},
+                 loops={"x": {"invariants": ["isfresh(_comp)", "length(_comp) == _i"]},
+                        "(argument, value)": {"no_break": True, "body_post": [
+                            ("C02", "implies(" + KEEP + ", haskey(_comp, argument.name) and lookup(_comp, argument.name) == clone_of(value))"),
+                            ("C02", "implies(not (" + KEEP + "), haskey(_comp, argument.name) == at_iteration_start(haskey(_comp, argument.name)))")]}})
+    reg.contracts["clone"]["locals"] = {"argument": "Argument"}
